@@ -241,11 +241,36 @@ def run(ctx):
             if s["s"] == "assign" and s["rv"]["r"] == "ref" and s["rv"]["mut"]:
                 f = model_field_of_place(s["rv"]["p"], b)
                 if f is not None and fn.raw.get("inputs") == ["&mut types::model::Model"]:
+                    if only_retain_receiver(b, s["p"]):
+                        continue     # `model.x.retain(..)`: a purge stage, its predicate is examined by c16.used
                     write_other.append((fn, f, s.get("ln")))
     for (fn, f, ln) in write_other:
         # &mut model.field: allowed only as receiver of retain (handled as stage) -- otherwise flag
         ctx.violation("c16.writes", "c16.writes|%s|%s" % (prog.display(fn), f), "mutable borrow of model.%s outside the retain idiom" % f, fn.loc(ln))
     ctx.ok("c16.writes", "c16.writes|scan", "no other mutable access to the model in %d purge bodies" % sum(1 for f in seen if prog.fns[f].path.startswith("bemodel::purge::")), root.loc())
+
+
+def only_retain_receiver(body, place, depth=0):
+    """is the &mut reference stored in `place` used only as the receiver of Vec::retain (possibly through reborrows)?"""
+    from ..dataflow import uses_of
+    from ..mir import pl_local, callee_name
+    if not isinstance(place, int) or depth > 3:
+        return False
+    uses = uses_of(body, place)
+    if not uses:
+        return False
+    for u in uses:
+        if u[0] == "term":
+            t = u[2]
+            if t["t"] == "call" and short_callee(callee_name(t) or "") == "retain" and "Vec" in (callee_name(t) or "") and t["args"] and \
+                    isinstance(t["args"][0], dict) and pl_local(t["args"][0].get("m", t["args"][0].get("c", -1))) == place:
+                continue
+            return False
+        s = u[3]
+        if s["rv"]["r"] in ("ref", "use") and isinstance(s["p"], int) and only_retain_receiver(body, s["p"], depth + 1):
+            continue
+        return False
+    return True
 
 
 def run_fixture(ctx):
